@@ -20,7 +20,7 @@ U = project.uncps
 
 def value_alts(kind, sp):
     """parameter spellings under which a literal may legitimately reach the driver (plumbing)"""
-    kind = kind.replace("Long", "")
+    kind = kind.replace("Long", "").replace("Pattern", "String")
     if kind == "Integer":
         return [str(int(sp))], ([str(abs(int(sp)))] if len(sp.lstrip("-")) >= 4 else [])
     if kind == "Float":
